@@ -72,7 +72,7 @@ def gen_program(r, quick):
                     pc = r.random()
                     if pc < 0.4:
                         prio = None
-                    elif pc < 0.9:
+                    elif pc < 0.96:
                         p = r.choice(PRIOS)
                         prio = p if fam == "array" else 65535 - p
                         if r.random() < 0.3:
@@ -84,16 +84,18 @@ def gen_program(r, quick):
                     names.append(f"k{u}_{n}")
                     n += 1
                 unit["secs"].append(dict(phase=phase, fam=fam, prio=prio, names=names,
-                                         unpadded=r.random() < 0.1))
+                                         unpadded=r.random() < 0.05))
         units.append(unit)
     # archive membership
     if r.random() < 0.5 and nunits >= 3:
         for unit in units:
             if r.random() < 0.5:
                 unit["archive"] = True
-    prog = dict(kind=kind, units=units, whole=r.random() < 0.4,
-                main_has_ents=r.random() < 0.5, cpic=r.random() < 0.5)
-    return prog
+    if r.random() < 0.5 and kind != "shared":
+        secs = [dict(phase=ph, fam="array", prio=r.choice([None, None, 300]), names=[f"kM_{i}"], unpadded=False)
+                for i, ph in enumerate(r.sample(["init", "fini", "init"], r.randint(1, 3)))]
+        units.append(dict(idx="M", lang="c", secs=secs, align=8, archive=False))
+    return dict(kind=kind, units=units, whole=r.random() < 0.4, cpic=r.random() < 0.5)
 
 
 def secname(s):
@@ -160,33 +162,33 @@ def unit_source(unit, force_align8):
     return t, "s"
 
 
-def build(ctx, prog, order, d, force_align8):
-    """Compiles everything; returns (args for the link under test, extra (main exe args or None))."""
+def build(ctx, prog, order, d, force_align8, rec):
+    """Compiles everything; returns (args for the link under test, main object for kind=shared or None)."""
     kind = prog["kind"]
     pic = kind in ("pie", "static-pie", "shared") or prog["cpic"]
     cflags = ("-O0", "-fPIC") if pic else ("-O0", "-fno-pic")
     objs = {}
     for unit in prog["units"]:
+        if unit["idx"] == "M":
+            continue
         src, lang = unit_source(unit, force_align8)
-        objs[unit["idx"]] = tools.compile_c(ctx, src, cflags if lang == "c" else (), lang=lang)
-    members = [u for u in prog["units"] if u["archive"]]
-    pulls = "".join(f"  pull_k{u['idx']}();\n" for u in prog["units"])
-    decl = "".join(f"void pull_k{u['idx']}(void);\n" for u in prog["units"])
-    main_ents = ""
-    if prog["main_has_ents"] and kind != "shared":
-        main_ents = ('__attribute__((constructor)) static void kM_0(void) { E("kM_0"); }\n'
-                     '__attribute__((destructor)) static void kM_1(void) { E("kM_1"); }\n')
+        objs[unit["idx"]] = rec.obj(f"u{unit['idx']}", src, cflags if lang == "c" else (), lang=lang)
+    real = [u for u in prog["units"] if u["idx"] != "M"]
+    members = [u for u in real if u["archive"]]
+    pulls = "".join(f"  pull_k{u['idx']}();\n" for u in real)
+    decl = "".join(f"void pull_k{u['idx']}(void);\n" for u in real)
     if kind == "shared":
-        anchor = tools.compile_c(ctx, C_HDR + decl + "void lib_anchor(void) {\n" + pulls + "}\n", cflags)
-        mainobj = tools.compile_c(ctx, C_HDR + 'void lib_anchor(void);\nint main(void) { E("main"); lib_anchor(); return 0; }\n',
-                                  ("-O0", "-fPIC"))
+        anchor = rec.obj("anchor", C_HDR + decl + "void lib_anchor(void) {\n" + pulls + "}\n", cflags)
+        mainobj = rec.obj("main", C_HDR + 'void lib_anchor(void);\nint main(void) { E("main"); lib_anchor(); return 0; }\n',
+                          ("-O0", "-fPIC"))
     else:
-        anchor = tools.compile_c(ctx, C_HDR + decl + main_ents + 'int main(void) { E("main");\n' + pulls + "  return 0; }\n", cflags)
+        main_ents = ""
+        for unit in prog["units"]:
+            if unit["idx"] == "M":
+                main_ents = unit_source(unit, False)[0].replace(C_HDR, "").replace("void pull_kM(void) {}\n", "")
+        anchor = rec.obj("main", C_HDR + decl + main_ents + 'int main(void) { E("main");\n' + pulls + "  return 0; }\n", cflags)
         mainobj = None
-    ar = None
-    if members:
-        ar = os.path.join(d, "libk.a")
-        tools.make_archive(ar, [objs[u["idx"]] for u in members])
+    ar = rec.archive("libk.a", [objs[u["idx"]] for u in members]) if members else None
     # command line: order is a permutation of tokens ("M" = main/anchor, "A" = archive, int = unit)
     args = []
     seen_main = False
@@ -209,27 +211,31 @@ def build(ctx, prog, order, d, force_align8):
     return opts + ["-Wl,--no-gc-sections"] + args, mainobj
 
 
-def link_and_run(ctx, prog, which, args, mainobj, d):
+def link_and_run(ctx, prog, which, args, mainobj, d, rec):
     """Returns (transcript or None, static arrays dict or None, link result, out path)."""
     kind = prog["kind"]
     if kind == "shared":
         out = os.path.join(d, which, "libu.so")
         os.makedirs(os.path.dirname(out), exist_ok=True)
-        res = xlink.glink(ctx, which, args, out)
+        rec.name(out, which + "/libu.so")
+        rec.step("mkdir -p " + which)
+        res = rec.link(which, args, out)
         if not xlink.linked_ok(res, out):
             return None, None, res, out
-        exe = os.path.join(d, which, "main")
-        r2 = xlink.glink(ctx, "ld", [mainobj, out], exe)
+        exe = rec.name(os.path.join(d, which, "main"), which + "/main")
+        r2 = rec.link("ld", [mainobj, out], exe)
         if not xlink.linked_ok(r2, exe):
             return None, None, r2, out
         rr = xlink.runprog(exe, libdirs=[os.path.dirname(out)])
+        rec.step(f"LD_LIBRARY_PATH={which} ./{which}/main; echo")
         target = out
     else:
         out = os.path.join(d, which + ".out")
-        res = xlink.glink(ctx, which, args, out)
+        res = rec.link(which, args, out)
         if not xlink.linked_ok(res, out):
             return None, None, res, out
         rr = xlink.runprog(out)
+        rec.step(f"./{which}.out; echo")
         target = out
     if rr.timed_out:
         return None, None, res, out
@@ -243,7 +249,7 @@ def link_and_run(ctx, prog, which, args, mainobj, d):
             if vals is None:
                 continue
             seq = [names.get(v) for v in vals]
-            seq = [x for x in seq if x and x[0] == "k" and "_" in x and not x.startswith("kM")]
+            seq = [x for x in seq if x and x[0] == "k" and "_" in x]
             if seq:
                 arrays[sn] = seq
     except Exception as ex:   # malformed output: let the run-time differential speak
@@ -256,7 +262,7 @@ def phases(transcript):
     if "main" not in toks:
         return None
     i = toks.index("main")
-    own = lambda t: t.startswith("k") and not t.startswith("kM")
+    own = lambda t: t.startswith("k") and "_" in t
     return {"init": [t for t in toks[:i] if own(t)], "fini": [t for t in toks[i + 1:] if own(t)]}
 
 
@@ -279,10 +285,11 @@ def classify(ents, ref_seq, got_seq, phase):
                 a, b = ents[x], ents[y]
                 dk = sorted([a.descr(), b.descr()])
                 eq = a.prio == b.prio
-                if eq and set(dk) in ({"ctors.N", "init_array.N"}, {"dtors.N", "fini_array.N"}):
-                    c = "equal-priority-" + "-vs-".join(dk)
+                if eq and not a.plain and not b.plain and a.sec != b.sec:
+                    # GNU ld: SORT_BY_INIT_PRIORITY falls back to the section name on equal priority
+                    c = "equal-priority:section-names-differ"
                 elif a.plain != b.plain and eq:
-                    c = "explicit-lowest-priority-vs-no-priority:" + "~".join(dk)
+                    c = "explicit-priority-65535-vs-no-priority"
                 else:
                     c = "~".join(dk) + (":equal-priority" if eq else ":different-priority")
                     if a.unit == b.unit:
@@ -317,23 +324,23 @@ def compare(ents, ref, got):
 
 def one_case(ctx, ci, forced=None):
     prog = forced or gen_program(rng("C30", ctx.seed, ci // 2), ctx.quick)
-    ro = rng("C30", ctx.seed, ci, "order")
-    order = ["M", "A"] + [u["idx"] for u in prog["units"]]
-    ro.shuffle(order)
+    order = ["M", "A"] + [u["idx"] for u in prog["units"] if u["idx"] != "M"]
+    rng("C30", ctx.seed, ci, "order").shuffle(order)
     if forced is not None:
         order = forced["order"]
     ents = entries(prog)
     d = ctx.scratch.dir("case", ci)
 
     def attempt(force8, tag):
-        args, mainobj = build(ctx, prog, order, d, force8)
         dd = os.path.join(d, tag)
         os.makedirs(dd, exist_ok=True)
-        ref = link_and_run(ctx, prog, "ld", args, mainobj, dd)
-        got = link_and_run(ctx, prog, "wild", args, mainobj, dd)
-        return args, mainobj, ref, got
+        rec = xlink.Recipe(ctx, dd)
+        args, mainobj = build(ctx, prog, order, dd, force8, rec)
+        ref = link_and_run(ctx, prog, "ld", args, mainobj, dd, rec)
+        got = link_and_run(ctx, prog, "wild", args, mainobj, dd, rec)
+        return rec, ref, got
 
-    args, mainobj, ref, got = attempt(False, "a")
+    rec, ref, got = attempt(False, "a")
     if ref[0] is None:
         ctx.inconclusive("GNU ld rejected the program or it did not run")
         return
@@ -346,12 +353,13 @@ def one_case(ctx, ci, forced=None):
         ctx.inconclusive("reference run does not execute every generated entry exactly once")
         return
     for e in ents.values():
-        ctx.note("section:" + e.descr())
+        ctx.note("section:" + e.descr() + (":align1" if e.align == 1 else ""))
     ctx.note("kind:" + prog["kind"])
-    files = {"cmdline.txt": xlink.cmdline_text("wild|ld", args, "out"), "inputs": d}
+    if any(u["archive"] for u in prog["units"]):
+        ctx.note("with-archive:" + ("whole" if prog["whole"] else "pulled"))
     if got[0] is None:
-        ctx.violation("link:wild-rejects-program-ld-links", "wild failed to link a constructor program GNU ld links: "
-                      + got[2].errtext().strip()[:300], case=ci, files=files)
+        LIM.violation("link:wild-rejects-program-ld-links", "wild failed to link a constructor program GNU ld links: "
+                      + got[2].errtext().strip()[:300], case=ci, files=rec.files())
         return
     classes = compare(ents, ref[:2], got[:2])
     if not classes:
@@ -359,23 +367,26 @@ def one_case(ctx, ci, forced=None):
         units = {e.unit for e in ents.values()}
         ctx.held(fingerprint=sha(repr((prog["kind"], order, [(e.name, e.sec, e.align) for e in ents.values()])))[:16],
                  nontrivial=len(ents) >= 3 and len(units) >= 2 and len(kinds) >= 2,
-                 sample={"kind": prog["kind"], "transcript": ref[0][:300]} if ci < 2 else None)
+                 sample={"kind": prog["kind"], "transcript": ref[0][:300]} if ci in (0, 1) else None)
         return
     sigs = set(classes)
     if any(e.align != 8 for e in ents.values()) and any(c.startswith(("order:", "static")) for c in classes):
         # causal probe: same program with every hand-written section aligned to 8
-        _a2, _m2, ref8, got8 = attempt(True, "b")
+        _rec8, ref8, got8 = attempt(True, "b")
         if ref8[0] is not None and got8[0] is not None and ref8[0] == ref[0]:
             c8 = compare(ents, ref8[:2], got8[:2])
             gone = {c for c in classes if c not in c8}
             if gone:
                 phs = sorted({c.split(":")[1] for c in gone})
                 sigs = set(c8) | {f"order:{p}:input-section-alignment-dependent" for p in phs}
-    info = {"kind": prog["kind"], "ld": ref[0], "wild": got[0], "ld_arrays": ref[1], "wild_arrays": got[1],
-            "entries": {e.name: [e.sec, e.align, e.unit] for e in ents.values()}}
+    info = {"kind": prog["kind"], "order": order, "ld": ref[0], "wild": got[0], "ld_arrays": ref[1], "wild_arrays": got[1],
+            "entries": {e.name: [e.sec, f"align={e.align}", f"unit={e.unit}"] for e in ents.values()}}
     for sig in sorted(sigs):
-        ctx.violation(sig, f"constructor/destructor order differs from GNU ld ({prog['kind']}): ld runs [{ref[0]}], "
-                      f"wild runs [{got[0]}]", case=ci, files=files, info=info)
+        LIM.violation(sig, f"constructor/destructor order differs from GNU ld ({prog['kind']}): ld runs [{ref[0]}], "
+                      f"wild runs [{got[0]}]", case=ci, files=rec.files(), info=info)
+
+
+LIM = None
 
 
 def pinned_progs():
@@ -386,16 +397,16 @@ def pinned_progs():
     c_dtor = lambda u: dict(phase="fini", fam="array", prio=None, names=[f"k{u}_1"], unpadded=False)
     p = []
     # 1. legacy .ctors/.dtors (alignment 1, hand-written) before .init_array objects
-    p.append(dict(kind="nopie", whole=False, main_has_ents=False, cpic=False, order=[0, 1, "M", "A"], units=[
+    p.append(dict(kind="nopie", whole=False, cpic=False, order=[0, 1, "M", "A"], units=[
         unit(0, "asm", [dict(phase="init", fam="ctors", prio=None, names=["k0_0", "k0_1"], unpadded=False),
                         dict(phase="fini", fam="ctors", prio=None, names=["k0_2"], unpadded=False)], align=1),
         unit(1, "c", [c_ctor(1), c_dtor(1)])]))
     # 2. .ctors.N and .init_array.M of equal effective priority (ld: sorted by section name)
-    p.append(dict(kind="nopie", whole=False, main_has_ents=False, cpic=False, order=[0, 1, "M", "A"], units=[
+    p.append(dict(kind="nopie", whole=False, cpic=False, order=[0, 1, "M", "A"], units=[
         unit(0, "c", [dict(phase="init", fam="array", prio=300, names=["k0_0"], unpadded=False)]),
         unit(1, "asm", [dict(phase="init", fam="ctors", prio=65235, names=["k1_0"], unpadded=False)])]))
     # 3. control: aligned legacy .ctors interleaves like ld
-    p.append(dict(kind="pie", whole=False, main_has_ents=False, cpic=True, order=[0, 1, "M", "A"], units=[
+    p.append(dict(kind="pie", whole=False, cpic=True, order=[0, 1, "M", "A"], units=[
         unit(0, "asm", [dict(phase="init", fam="ctors", prio=None, names=["k0_0", "k0_1"], unpadded=False)], align=8),
         unit(1, "c", [c_ctor(1), c_dtor(1)])]))
     return p
@@ -407,8 +418,10 @@ def main(ctx):
                 "static/static-pie/pie/no-pie/shared), two shuffled command-line orders each; a case counts when GNU ld "
                 "links it, every entry runs exactly once, and it has >=3 entries of >=2 section kinds from >=2 units")
     ctx.assumptions = ["GNU ld 2.40 via gcc -B is the arbiter", "ids printed with write(2) so stdio state is irrelevant"]
+    global LIM
+    LIM = xlink.SigLimiter(ctx, 2)
     tools.wild()
-    n = ctx.pick(120, 2000)
+    n = ctx.pick(80, 2000)
     jobs = [("p", i) for i in range(len(pinned_progs()))] + [("c", i) for i in range(n)]
     if ctx.replay is not None:
         c = str(ctx.replay.get("case"))
@@ -419,4 +432,4 @@ def main(ctx):
             one_case(ctx, f"pinned{j[1]}", forced=pinned_progs()[j[1]])
         else:
             one_case(ctx, j[1])
-    pmap(go, jobs)
+    pmap(go, jobs, workers=12)
